@@ -541,7 +541,8 @@ def _marker_vouches(f):
 def _c04(cond):
     def p(m):
         f = _mon(m, "c04")
-        return bool(f) and f.get("kind") == "skip-not-good" and cond(m, f)
+        # (a run that skips, or a query that says "up to date" — the verdict does not depend on the mode — although goodRun fails)
+        return bool(f) and f.get("kind") in ("skip-not-good", "status-not-good", "dry-skip-not-good", "list-not-good") and cond(m, f)
     return p
 
 
